@@ -187,6 +187,26 @@ def load_after_join_unset(prog, outcome):
     return False
 
 
+def lazy_raced(prog, outcome):
+    """F23 shape: an atomic is declared (the initialiser has a scheduling point), two threads touch the same lazy
+    static, and some access returned an instance id >= 2"""
+    if not re.search(r"\bx=[1-9]", prog):
+        return False
+    ths = threads_of(prog)
+    users = {}
+    for t, ops in enumerate(ths):
+        for o in ops:
+            if o[0] == "lazy":
+                users.setdefault(o[1], set()).add(t)
+    res = op_results(prog, outcome)
+    second = any(op[0] == "lazy" and r.startswith("v:") and int(r[2:]) >= 200 and len(users.get(op[1], ())) >= 2
+                 for _t, _pc, op, r in res)
+    # … or the run counter (atomic 0) shows more runs than there are lazy statics in the program
+    keys = {o[1] for ops in ths for o in ops if o[0] == "lazy"}
+    counted = any(op[0] == "ld" and op[1] == "0" and r.startswith("v:") and int(r[2:]) > len(keys) for _t, _pc, op, r in res)
+    return (second or counted) and any(len(u) >= 2 for u in users.values())
+
+
 def unjoined_lazy(prog):
     """F22 shape: a spawned thread that main never joins touches a lazy static"""
     ths = threads_of(prog)
@@ -238,6 +258,12 @@ SIGNATURES = {
     # still sees the value from before the destructor's store
     "join-before-tls-destructors": lambda p, kind, o: kind == "forbidden" and "tlsdtor=1" in p and verdict(o) == "ok"
     and load_after_join_unset(p, o),
+    # F23: the initialiser of a lazy static ran twice (an instance id ≥ 2 is visible)
+    "lazy-init-runs-twice": lambda p, kind, o: kind == "forbidden" and verdict(o) == "ok" and lazy_raced(p, o),
+    # F24: which thread initialises a lazy static is not explored (the access is not a branch point); observable
+    # only when the initialiser has a side effect (an atomic is declared)
+    "lazy-access-unbranched": lambda p, kind, o: kind == "missing" and has(p, "lazy") and bool(re.search(r"\bx=[1-9]", p))
+    and sum(1 for ops in threads_of(p) if any(x[0] == "lazy" for x in ops)) >= 2,
     # F22: lazy statics are torn down when the main closure returns
     "lazy-static-dropped-at-main-exit": lambda p, kind, o: verdict(o) == "lazyShutdown" and unjoined_lazy(p),
     # F12: a leaked raw allocation aborts the process instead of reporting "Allocation leaked"
